@@ -3,8 +3,8 @@ CONSTANTS
   MaxLen = 3
   StyleIds = {1, 2, 3}
   LHIds = {1, 2, 3, 4}
-  Variant = "crlf"
-  Strict = TRUE
+  Variant = "fixed"
+  Strict = FALSE
   Gen = FALSE
 SPECIFICATION Spec
 INVARIANTS LayoutOK MachineOK
